@@ -58,7 +58,13 @@ class IndexEnum:
                 return tuple(self.seqs[e.id])
             raise NotEvaluable(e.id)
         if isinstance(e, ast.Tuple):
-            return tuple(self.ev(x, env) for x in e.elts)
+            out = []
+            for x in e.elts:
+                if isinstance(x, ast.Starred):
+                    out.extend(self.ev(x.value, env))
+                else:
+                    out.append(self.ev(x, env))
+            return tuple(out)
         if isinstance(e, ast.UnaryOp) and isinstance(e.op, ast.USub):
             return -self.ev(e.operand, env)
         if isinstance(e, ast.UnaryOp) and isinstance(e.op, ast.Not):
@@ -98,6 +104,11 @@ class IndexEnum:
         if isinstance(e, ast.BoolOp):
             vals = [self.ev(v, env) for v in e.values]
             return all(vals) if isinstance(e.op, ast.And) else any(vals)
+        if isinstance(e, ast.IfExp):
+            t = self.ev(e.test, env)
+            if not isinstance(t, bool):
+                raise NotEvaluable(norm(e.test))
+            return self.ev(e.body if t else e.orelse, env)
         raise NotEvaluable(norm(e))
 
     def ev_iter(self, e, env=None):
@@ -154,7 +165,13 @@ class IndexEnum:
             gen(0, dict(env))
             return out
         if isinstance(e, (ast.List, ast.Tuple)):
-            return [self.ev(x, env) for x in e.elts]
+            out = []
+            for x in e.elts:
+                if isinstance(x, ast.Starred):
+                    out.extend(self.ev(x.value, env))
+                else:
+                    out.append(self.ev(x, env))
+            return out
         if isinstance(e, ast.Name) and e.id in self.seqs:
             return self.seqs[e.id]
         raise NotEvaluable(norm(e))
